@@ -172,7 +172,17 @@ func topFrame(stack string) string {
 		}
 		// Prefer the first frame inside the repository, but do not search forever.
 		if strings.Contains(l, repoPrefix) {
-			if fn != first {
+			// A frame in the small shared helper packages (hashes, CBOR, quantities) says little: name its caller too.
+			if (strings.HasPrefix(fn, "common/crypto/") || strings.HasPrefix(fn, "common/cbor") || strings.HasPrefix(fn, "common/quantity")) && i-start <= 40 {
+				if first == fn {
+					first = fn + "<-"
+				}
+				continue
+			}
+			switch {
+			case strings.HasSuffix(first, "<-"):
+				return first + fn
+			case fn != first:
 				return first + "<-" + fn
 			}
 			return fn
@@ -184,7 +194,7 @@ func topFrame(stack string) string {
 	if first == "" {
 		return "unknown-frame"
 	}
-	return first
+	return strings.TrimSuffix(first, "<-")
 }
 
 func panicClass(v string) string {
